@@ -485,7 +485,9 @@ class Interp:
             return self.sigval(None, val, cmp=True)
         if k == "eo":
             ent = self.lookup(e[1])
-            return Val("bun", members={s_: c for s_, c in self.chest.get(ent.ent, {}).items() if c != 0})
+            rec = next(x for x in self.entities if x["id"] == ent.ent)
+            contents = self.chest.get((rec["proto"], rec["x"], rec["y"]), {})
+            return Val("bun", members={s_: w32(c) for s_, c in contents.items() if w32(c) != 0})
         if k == "prop":
             raise Unspec("entity property read")
         raise ValueError("unknown expr %r" % (e,))
